@@ -420,7 +420,7 @@ func (fgen *funcGen) irInvokeTerm(new ir.Terminator, old *ast.InvokeTerm) error 
 	if oldFuncAttrs := old.FuncAttrs(); len(oldFuncAttrs) > 0 {
 		term.FuncAttrs = make([]ir.FuncAttribute, len(oldFuncAttrs))
 		for i, oldFuncAttr := range oldFuncAttrs {
-			funcAttr := fgen.gen.irFuncAttribute(oldFuncAttr)
+			funcAttr := fgen.gen.irFuncAttributeOutsideGroup(oldFuncAttr)
 			term.FuncAttrs[i] = funcAttr
 		}
 	}
@@ -535,7 +535,7 @@ func (fgen *funcGen) irCallBrTerm(new ir.Terminator, old *ast.CallBrTerm) error 
 	if oldFuncAttrs := old.FuncAttrs(); len(oldFuncAttrs) > 0 {
 		term.FuncAttrs = make([]ir.FuncAttribute, len(oldFuncAttrs))
 		for i, oldFuncAttr := range oldFuncAttrs {
-			funcAttr := fgen.gen.irFuncAttribute(oldFuncAttr)
+			funcAttr := fgen.gen.irFuncAttributeOutsideGroup(oldFuncAttr)
 			term.FuncAttrs[i] = funcAttr
 		}
 	}
